@@ -114,6 +114,38 @@ Example C10_nonvacuous_props_warning :
       /\ obs_of (validate demo_xprop_verb) = (2, [(5, 2); (4, 1)])).
 Proof. exact demo_xprop_facts. Qed.
 
+(* Parameters declared together (`tags, labels []string`) share a type, not a verdict: the type diagnostics of
+   every bound parameter - judged under the kind of the annotation that binds IT - are among the diagnostics of
+   the route, wherever the parameter stands; so an accepted route has no name, in any declaration, whose type
+   does not suit its own annotation.  (The model has the flat parameter list only: the verdict is the same for
+   every grouping of the parameters into declarations.) *)
+Theorem C10_each_parameter_type_diags_reported : forall r l j p a pi,
+  validate r = VDiags l -> In (j, p) (indexed (r_params r)) -> is_ctx p = false ->
+  first_by_value (fp_name p) (r_attrs r) = Some a -> passed_of (la_kind a) = Some pi ->
+  incl (type_diag j p pi) l.
+Proof. exact each_parameter_type_diags_reported. Qed.
+
+Theorem C10_declared_together_judged_separately : forall r ds ns b sh n a pi j,
+  r_params r = params_of_decls ds -> accepted r = true ->
+  In (ns, b, sh) ds -> In n ns ->
+  let p := {| fp_name := n; fp_base := b; fp_shape := sh |} in
+  is_ctx p = false -> first_by_value n (r_attrs r) = Some a -> passed_of (la_kind a) = Some pi ->
+  type_diag j p pi = [].
+Proof. exact declared_together_judged_separately. Qed.
+
+(* non-vacuity: a slice declared for a query AND a header parameter, a struct declared for the body AND a query
+   parameter: one error, on the second name; three strings declared together for path, query and header: accepted *)
+Example C10_nonvacuous_declared_together :
+  (in_scope demo_grouped_slice_header = true /\ well_linked demo_grouped_slice_header = false
+   /\ validate demo_grouped_slice_header = VDiags [err CParamNotPrimitive (AnParam 1)]
+   /\ accepted demo_grouped_slice_header = false)
+  /\ (in_scope demo_grouped_struct_query = true /\ well_linked demo_grouped_struct_query = false
+      /\ validate demo_grouped_struct_query = VDiags [err CParamNotPrimitive (AnParam 1)]
+      /\ accepted demo_grouped_struct_query = false)
+  /\ (in_scope demo_grouped_ok = true /\ well_linked demo_grouped_ok = true /\ accepted demo_grouped_ok = true
+      /\ type_diag 2 demo_trace PHeader = []).
+Proof. exact demo_grouped_facts. Qed.
+
 Print Assumptions C10_url_params_spec.
 Print Assumptions C10_sound_partial.
 Print Assumptions C10_complete_partial.
@@ -131,3 +163,6 @@ Print Assumptions C10_well_linked_with_hidden.
 Print Assumptions C10_hidden_not_exempt.
 Print Assumptions C10_nonvacuous_hidden.
 Print Assumptions C10_nonvacuous_props_warning.
+Print Assumptions C10_each_parameter_type_diags_reported.
+Print Assumptions C10_declared_together_judged_separately.
+Print Assumptions C10_nonvacuous_declared_together.
